@@ -138,6 +138,7 @@ class Frame:
         self.base = z3.BoolVal(True)          # guard of the call site
         self.globals = {}
         self.closure = {}
+        self.self_name = None
 
 
 class Closure:
@@ -194,6 +195,7 @@ class Interp:
         bound = sig.bind(*(([self_obj] if self_obj is not None else []) + list(args)), **kwargs)
         bound.apply_defaults()
         frame = Frame(dict(bound.arguments))
+        frame.self_name = next(iter(sig.parameters), None)
         frame.globals = pyfn.__globals__
         if pyfn.__closure__:
             frame.closure = dict(zip(pyfn.__code__.co_freevars, [c.cell_contents for c in pyfn.__closure__]))
@@ -264,7 +266,12 @@ class Interp:
             if hasattr(args[0], "klen"):
                 return args[0].klen()
             return len(args[0])
-        elif fn in self.native or (inspect.isclass(fn) and fn in self.native):
+        elif fn is super and not args:
+            # zero-argument super(): the defining class is in the function's __class__ cell
+            return super(frame.closure['__class__'], frame.env[frame.self_name])
+        elif getattr(fn, "__func__", fn) in self.native:
+            # executed natively even under a symbolic guard (store-only constructors, callees whose effects the query
+            # set does not depend on): their effects are NOT guarded
             return fn(*args, **kwargs)
         elif not any_sym(list(args)) and not any_sym(list(kwargs.values())) and not self._touches_symbolic_heap(fn):
             return fn(*args, **kwargs)                # fully concrete: run natively
@@ -614,8 +621,11 @@ def concretize(term, subst):
         return True
     if z3.is_false(r):
         return False
-    if is_fp(r) and isinstance(r, z3.FPNumRef):
-        return float(r.as_string()) if not (r.isNaN() or r.isInf()) else (float('nan') if r.isNaN() else float('inf') * (-1 if r.isNegative() else 1))
+    if is_fp(r):
+        import struct
+        bits = z3.simplify(z3.fpToIEEEBV(r))
+        if z3.is_bv_value(bits):
+            return struct.unpack(">d", bits.as_long().to_bytes(8, "big"))[0]
     if z3.is_rational_value(r):
         return float(r.numerator_as_long()) / float(r.denominator_as_long())
     raise Untranslatable("term did not reduce to a value: %s" % r)
